@@ -319,3 +319,13 @@ def cross_size_cfg(cfg: dict, rng):
     n = cfg["gen"]["num_loc"]
     c["gen"]["num_loc"] = rng.choice([max(2, n - rng.randint(1, 3)), n + rng.randint(1, 4)])
     return c
+
+
+def for_network(cfg: dict) -> dict:
+    """Configuration tweak for scenarios that compare a REAL neural policy across batch layouts: unscaled
+    CVRPTW (coordinates up to 150, times up to 480) makes the attention logits so ill-conditioned that two
+    layouts differ by 1e-4..1e-3 in float32 without any defect; such comparisons use the generator's documented
+    `scale=True` (all features in [0,1]).  The scripted decoder and all environment-level checks keep both."""
+    if cfg.get("env") == "cvrptw":
+        cfg["gen"]["scale"] = True
+    return cfg
